@@ -828,7 +828,7 @@ func handle(req N) (resp N) {
 		resp["back"] = goTree(dst.Elem().Field(0))
 		return resp
 
-	case "global", "field_read", "field_write", "nested_write":
+	case "global", "global_ov", "field_read", "field_write", "nested_write":
 		rt, err := rtype(chain)
 		if err != nil {
 			return bad(err)
@@ -851,6 +851,21 @@ func handle(req N) (resp N) {
 			return bad(err)
 		}
 		switch route {
+		case "global_ov":
+			// the value replaces an existing global through WithGlobalOverride
+			phase = "eval"
+			ctx, cancel := context.WithTimeout(context.Background(), 5*time.Second)
+			res, err := risor.Eval(ctx, "x", risor.WithoutDefaultGlobals(), risor.WithGlobals(map[string]any{"x": "old value"}),
+				risor.WithGlobalOverride("x", v.Interface()))
+			cancel()
+			if err != nil {
+				return fail(err)
+			}
+			phase = "project"
+			resp["k"] = "ok"
+			resp["script"] = scriptTree(res, 12)
+			phase = "back"
+			convertBack(rt, res, resp)
 		case "global":
 			phase = "eval"
 			res, err := evalWith("x", map[string]any{"x": v.Interface()})
